@@ -3494,6 +3494,22 @@ def check_C19(run):
                                    image=img.hex()[:4000], name=name, payload=payload.hex()[:400], impl=i_ans[:300])); break
             if corrupted:
                 second.append((kind, img, name, payload, bytes.fromhex(i_core[4:])))     # (judged like a valid image: the payload must read back)
+    # the same for PE: the hypothesis of C19_pe_roundtrip (ValidPe) evaluated on every PE image of this run
+    pe_adds = [(l, m_, i_ans) for l, m_, i_ans in zip(lines, meta, impl) if m_[0] == 'pe' and m_[1] == 'add']
+    vl = [f'exe validpe {C.X(m_[3])} {C.X(m_[4])} {C.X(m_[5])}' for _, m_, _ in pe_adds]
+    vans = C.run_model(vl, timeout=3600)
+    for (l, m_, i_ans), va in zip(pe_adds, vans):
+        kind, op, corrupted, img, name, payload = m_
+        run.count(f'pe:ValidPe={va}:' + ('corrupted' if corrupted else 'generated'))
+        if va not in ('valid', 'not-valid') and bad is None:
+            bad = dict(request_line=('exe validpe ' + l[:2000]), impl='-', model=va[:300])
+        if va == 'valid':
+            i_core = i_ans.split(' msg=')[0]
+            if not i_core.startswith('ok:'):
+                run.violation(dict(kind='oracle-failed-on-implementation', oracle='C19_pe_roundtrip on the implementation: an image that meets ValidPe is accepted by add_section_to_pe', layer='L1',
+                                   image=img.hex()[:4000], name=name, payload=payload.hex()[:400], impl=i_ans[:300])); break
+            if corrupted:
+                second.append((kind, img, name, payload, bytes.fromhex(i_core[4:])))
     # round trip + preservation oracle on the implementation
     l2_ = [f'exe ext{kind} {C.X(out)} {C.X(name)}' for kind, img, name, payload, out in second]
     back = [a for a, _ in C.run_harness(l2_, timeout=1800)]
@@ -3707,7 +3723,7 @@ def check_C19(run):
         shutil.rmtree(d, ignore_errors=True); sb.close()
     run.cov['panic_classes_seen'] = sorted(f'{a}:{b}' for a, b in panic_seen)
     run.cov['trusted_base'] = C.GLOBAL_TRUST + ['dev-profile integer semantics (overflow checks on) is what the harness and the suite run; the release profile differs only where an overflow occurs',
-                                                'ELF64: round trip and preservation are theorems for every image meeting the decidable predicate ValidElf (evaluated on the generated images, on a clang-linked executable and (thorough) on the stripped rjrssync binary); PARTIAL for PE: the general round-trip / preservation statement is carried by the byte-exact correspondence + structural oracle, not by a Lean theorem; Windows loading of the PE result cannot be exercised here (no PE can run)',
+                                                'ELF64: round trip and preservation are theorems for every image meeting the decidable predicate ValidElf (evaluated on the generated images, on a clang-linked executable and (thorough) on the stripped rjrssync binary); PE: the round trip is a theorem for every image meeting ValidPe (evaluated on the generated images); PARTIAL: the PE preservation statement is carried by the byte-exact correspondence + structural oracle, not by a Lean theorem; Windows loading of the PE result cannot be exercised here (no PE can run)',
                                                 'deployment of the augmented binary through fake scp + handshake is covered by C15\'s launch matrix']
 
 
